@@ -351,6 +351,19 @@ fn gen_kernel_cases(k: &mut KRun, thorough: bool) {
             k.add(format!("matchrange {} -1", rp), match_outcome(&src, r), src.replace('\n', "; "));
             let src = format!("match {}\n  (x, ...) then x\n  else 'nomatch'", rs);
             k.add(format!("matchrange {} 0", rp), match_outcome(&src, r), src.replace('\n', "; "));
+            // run_slice on a range: `(x, rest...)` → SliceFrom 1, `(rest..., y, z)` → SliceTo -2
+            for (pat, idx, to, min_len) in [("(x, rest...)", 1, 0, 1), ("(x, y, rest...)", 2, 0, 2), ("(rest..., y)", -1, 1, 1), ("(rest..., y, z)", -2, 1, 2)] {
+                let src = format!("match {}\n  {} then rest\n  else 'nomatch'", rs, pat);
+                k.add(
+                    format!("matchslice {} {} {} {}", rp, idx, to, min_len),
+                    script_outcome(&src, |v| match v {
+                        KValue::Range(x) => format!("{} {}", x.start().unwrap_or(0), x.end().map(|e| e.0).unwrap_or(0)),
+                        KValue::Str(_) => "nomatch".into(),
+                        _ => "?".into(),
+                    }),
+                    src.replace('\n', "; "),
+                );
+            }
         }
     }
     // ---- arithmetic (scripts) -----------------------------------------------------------------------
